@@ -24,6 +24,9 @@ RULE = (
     "Per connection a full lifecycle: declare, enqueue in positional and keyword call styles (and, in half of the runs, calls "
     "which leave optional arguments out: enqueue(key), requeue(key)), worker run (return / raise / "
     "retry / eager ack inside the actor, args and results buckets), bucket delete, flush, delete; both workers run concurrently. "
+    "Calls failing in the caller's own task (enqueue into a missing queue, consume() under wait_for on an empty queue, the first "
+    "result store of a retried job) are followed by more calls of the same task; message brokers may be classes made by a "
+    "factory (same module and qualified name per tenant) whose queue operations name their argument differently. "
     "A recording shim around repid's wrapper (own nesting counter, independent of IsInsideMiddleware) sees every wrapped call. "
     "Oracle: per top-level call exactly one before_X before the effect and one after_X iff it returned, with the call's actual "
     "arguments by name (+ result), delivered to the owning connection's subscribers only; nested calls emit nothing; the same "
@@ -67,6 +70,11 @@ def gen(rng, broker, tier):
                          "style": rng.choice(["job", "positional", "keyword"])})
     return {"nconn": nconn, "subscribers": subs, "jobs": jobs, "minimal": rng.random() < 0.5,
             "results_only": [rng.random() < 0.3 for _ in range(4)],
+            # per connection: the stock in-memory broker, or a broker class made by a factory (one class object per tenant,
+            # all with the same module and qualified name) whose queue operations name their argument their own way
+            "tenant": [rng.choice([None, None, "queue_name", "name", "q"]) for _ in range(4)],
+            # calls that fail in the caller's own task, followed by more calls of the same task
+            "failing": sorted(rng.sample(["enqueue-missing-queue", "consume-timeout", "flaky-store"], rng.choice([0, 1, 2, 3]))),
             "knobs": {"step_cost": rng.choice([0, 0, 1, "rand"])}}
 
 
@@ -108,7 +116,31 @@ async def _main(sim, sc, out):
     for c in range(sc["nconn"]):
         # a connection may come without an arguments bucket broker (arguments then travel inline)
         ab = None if sc.get("results_only", [False] * 4)[c] else r.InMemoryBucketBroker()
-        conn = r.Connection(r.InMemoryMessageBroker(), ab, r.InMemoryBucketBroker(use_result_bucket=True))
+        rb = r.InMemoryBucketBroker(use_result_bucket=True)
+        if "flaky-store" in sc.get("failing", ()):
+            # the first attempt to store the result of a job that will be retried fails (the worker handles that and goes on
+            # to put the message back: a wrapped call like any other)
+            retry_ids = {"r-" + j["id"] for j in sc["jobs"] if j["conn"] == c and j["kind"] == "retry"}
+
+            class _Flaky(r.InMemoryBucketBroker):
+                failed: set = set()
+
+                async def store_bucket(self, id_, payload, _ids=retry_ids):
+                    if id_ in _ids and id_ not in self.failed:
+                        self.failed = self.failed | {id_}
+                        raise ConnectionError("result storage is temporarily unavailable")
+                    await super().store_bucket(id_, payload)
+
+            rb = _Flaky(use_result_bucket=True)
+        tenant = (sc.get("tenant") or [None] * 4)[c]
+        mbroker = r.InMemoryMessageBroker()
+        if tenant:
+            ns = {"Base": r.InMemoryMessageBroker, "__name__": "tenant_brokers"}
+            exec("class _Tenant(Base):\n" + "".join(  # noqa: S102
+                f"    async def {op}(self, {tenant}):\n        await Base.{op}(self, {tenant})\n"
+                for op in ("queue_declare", "queue_flush", "queue_delete")), ns)
+            mbroker = ns["_Tenant"]()
+        conn = r.Connection(mbroker, ab, rb)
         conns.append(conn)
     label_of_mw = {id(c.middleware): i for i, c in enumerate(conns)}
     label_of_obj = {}
@@ -166,6 +198,9 @@ async def _main(sim, sc, out):
         for op, argnames in OP_ARGS.items():
             for when in ("before", "after"):
                 names = list(argnames) + (["result"] if when == "after" else [])
+                tenant = (sc.get("tenant") or [None] * 4)[ci]
+                if tenant and op in ("queue_declare", "queue_flush", "queue_delete"):
+                    names = [tenant if n == "queue_name" else n for n in names]
                 signame = f"{when}_{op}"
 
                 async def log_body(kwargs, ci=ci, signame=signame):
@@ -230,7 +265,7 @@ async def _main(sim, sc, out):
         jobs_objs = {}
         for j in mine:
             job = r.Job("act", queue=f"q{ci}", id_=j["id"], args={"jid": j["id"]}, retries=1 if j["kind"] == "retry" else 0,
-                        _connection=conn)
+                        result_id="r-" + j["id"], _connection=conn)
             jobs_objs[j["id"]] = job
             if j["style"] == "job":
                 await job.enqueue()
@@ -256,6 +291,32 @@ async def _main(sim, sc, out):
             await conn.message_broker.ack(k3)
             await cx.finish()
             await conn.message_broker.queue_delete(f"qx{ci}")
+        failing = sc.get("failing", ())
+        if "enqueue-missing-queue" in failing:
+            ky = RoutingKey(id_=f"y{ci}", topic="act", queue=f"qy{ci}")
+            try:
+                await conn.message_broker.enqueue(ky, "", None)
+                V.append(violation("no-error", "C17/mem/enqueue-into-a-missing-queue-did-not-raise"))
+            except KeyError:
+                probe(out, "wrapped-call-raised-in-the-callers-task")
+            await conn.message_broker.queue_declare(f"qy{ci}")
+            await conn.message_broker.enqueue(ky, "", None)
+            await conn.message_broker.queue_flush(f"qy{ci}")
+            await conn.message_broker.queue_delete(f"qy{ci}")
+        if "consume-timeout" in failing:
+            await conn.message_broker.queue_declare(f"qz{ci}")
+            cz = conn.message_broker.get_consumer(f"qz{ci}", None, None)
+            await cz.start()
+            try:
+                await asyncio.wait_for(cz.consume(), timeout=0.05)
+            except asyncio.TimeoutError:
+                probe(out, "wrapped-call-timed-out-in-the-callers-task")
+            kz = RoutingKey(id_=f"z{ci}", topic="act", queue=f"qz{ci}")
+            await conn.message_broker.enqueue(kz, "", None)
+            k4, _, _ = await asyncio.wait_for(cz.consume(), timeout=5)
+            await conn.message_broker.ack(k4)
+            await cz.finish()
+            await conn.message_broker.queue_delete(f"qz{ci}")
         try:
             await asyncio.wait_for(w.run(), timeout=30)
         except asyncio.TimeoutError:
